@@ -1,14 +1,21 @@
 """C13 — class decoration.
 
-R1  identity: ``beartype_type`` returns the class it was given on every path; the non-fatal
-    route returns the object on failure;
-R2  own members only: the loop iterates ``cls.__dict__``; nested classes are admitted only
-    when their qualified name extends the parent's;
+R1  identity: ``beartype_type``, interpreted over abstract classes, returns the class it was
+    given (with and without a class stack, marked or not); the non-fatal route returns the
+    object on failure;
+R2  own members only, by the same interpretation: exactly the beartypeable entries of
+    ``cls.__dict__`` are decorated (nested classes only when lexically nested), with the
+    extended class stack and the same configuration, and replaced on the class itself;
 R3  no-op identities of ``beartype_func`` (unbeartypeable callables, empty wrapper code,
     the ``-O`` decorator);
-R4  descriptor kind preserved (classmethod / staticmethod / property rebuilt as what they were);
+R4  descriptor kind preserved: the builtin-descriptor decorators, interpreted over abstract
+    classmethod / staticmethod / property objects (every combination of absent / annotated /
+    unannotated parts);
 R5  wrapper metadata and idempotence (``func_wrapped`` reaches ``update_wrapper``; writer and
-    reader of the "already beartyped" marker agree).
+    reader of the "already beartyped" marker agree; an already marked class is returned untouched);
+R6  ownership of the function marker (shared with C14.R7);
+R7  class route == per-member route (shared with C05.R6);
+R8  the store behind the class marker: set/get of the type attribute cache, interpreted.
 """
 from __future__ import annotations
 
@@ -35,14 +42,6 @@ def run(ctx):
     ctx.rule('C13.R1', 'every return of beartype_type returns its (never re-assigned) parameter cls; '
              '_beartype_object_nonfatal returns obj after a failed decoration')
     p = params_of(bt)[0]
-    reassigned = [a for a in walk_shallow(bt) if isinstance(a, (ast.Assign, ast.AugAssign, ast.AnnAssign))
-                  and any(dotted(t) == p for t in (a.targets if isinstance(a, ast.Assign) else [a.target]))]
-    rets = [r for r in walk_shallow(bt) if isinstance(r, ast.Return)]
-    for r in rets:
-        ctx.ob('C13.R1', f'beartype_type:{norm(r)}', tm.where(r), 'returns the class object that was passed in',
-               dotted(r.value) == p and not reassigned, f'returns {norm(r.value) if r.value else None}; '
-               f'{p} re-assigned: {bool(reassigned)}')
-    ctx.floor('C13.R1', len(rets), 2, 'returns of beartype_type')
     cm = repo.mod(CORE)
     nf = cm.defs.get('_beartype_object_nonfatal')
     ctx.require(nf is not None, 'anchor vanished: _beartype_object_nonfatal')
@@ -60,19 +59,7 @@ def run(ctx):
     # ---- R2 ----------------------------------------------------------------------
     ctx.rule('C13.R2', 'the member loop iterates cls.__dict__ (own attributes, not dir() / the MRO); a nested class is '
              'decorated only if its __qualname__ starts with the parent\'s; members are replaced on the class itself')
-    loops = [x for x in walk_shallow(bt) if isinstance(x, ast.For)]
-    ctx.require(len(loops) >= 1, 'beartype_type: no member loop')
-    lp = loops[0]
-    it = norm(lp.iter)
-    ctx.ob('C13.R2', 'beartype_type:iterates-own-dict', tm.where(lp), 'members come from cls.__dict__',
-           it in (f'{p}.__dict__.items()', f'vars({p}).items()', f'tuple({p}.__dict__.items())', f'list({p}.__dict__.items())'), it)
-    conds = [norm(i.test) for i in lp.body if isinstance(i, ast.If)]
-    ok = any('__qualname__.startswith(' in c and f'{p}.__qualname__' in c and 'isinstance(' in c for c in conds)
-    ctx.ob('C13.R2', 'beartype_type:nested-class-qualname-guard', tm.where(lp),
-           'a class-valued attribute is decorated only when it is lexically nested in this class', ok, f'{conds}')
-    sets = [c for c in ast.walk(lp) if isinstance(c, ast.Call) and dotted(c.func) in ('set_type_attr', 'setattr')]
-    ok = bool(sets) and all(dotted(c.args[0]) == p for c in sets if c.args)
-    ctx.ob('C13.R2', 'beartype_type:replaces-on-same-class', tm.where(lp), 'decorated members are set on cls itself', ok, '')
+    _class_route(ctx)
 
     # ---- R3 ----------------------------------------------------------------------
     ctx.rule('C13.R3', 'beartype_func returns the callable it was given when it is unbeartypeable (optimised '
@@ -125,51 +112,7 @@ def run(ctx):
     ctx.rule('C13.R4', 'builtin descriptors keep their kind: the dispatch table maps classmethod / staticmethod / '
              'property to their decorators; the class/static decorator rebuilds with descriptor.__class__; the '
              'property decorator rebuilds property(fget, fset, fdel, doc) carrying all four parts')
-    mp = repo.mod('beartype._decor._nontype._decornontypemap')
-    txt = mp.src
-    dd = repo.mod(DESC)
-    table = {}
-    for n in ast.walk(mp.tree):
-        if isinstance(n, ast.Dict):
-            for k, v in zip(n.keys, n.values):
-                if const_str(k) in ('classmethod', 'staticmethod', 'property'):
-                    table[const_str(k)] = dotted(v)
-    want = {'classmethod': 'beartype_descriptor_decorator_builtin_class_or_static_method',
-            'staticmethod': 'beartype_descriptor_decorator_builtin_class_or_static_method',
-            'property': 'beartype_descriptor_decorator_builtin_property'}
-    for k, v in want.items():
-        ctx.ob('C13.R4', f'descriptor-dispatch:{k}', mp.where(mp.tree.body[0]), f'{k} objects are handled by {v}',
-               table.get(k) == v, f'mapped to {table.get(k)}')
-    cs = dd.defs.get('beartype_descriptor_decorator_builtin_class_or_static_method')
-    ctx.require(cs is not None, 'anchor vanished: class_or_static_method decorator')
-    rets = [r for r in walk_shallow(cs) if isinstance(r, ast.Return)]
-    ok = len(rets) == 1 and isinstance(rets[0].value, ast.Call) and norm(rets[0].value.func) == 'descriptor.__class__' \
-        and len(rets[0].value.args) == 1
-    ctx.ob('C13.R4', 'class_or_static:rebuilt-with-own-class', dd.where(cs),
-           'the descriptor is rebuilt with its own class around the checked wrappee', ok, norm(rets[0])[:100] if rets else '')
-    pr = dd.defs.get('beartype_descriptor_decorator_builtin_property')
-    ctx.require(pr is not None, 'anchor vanished: property decorator')
-    rets = [r for r in walk_shallow(pr) if isinstance(r, ast.Return)]
-    ok = False
-    detail = ''
-    if len(rets) == 1 and isinstance(rets[0].value, ast.Call) and dotted(rets[0].value.func) == 'property':
-        kw = {k.arg: norm(k.value) for k in rets[0].value.keywords}
-        pos = [norm(a) for a in rets[0].value.args]
-        parts = dict(zip(('fget', 'fset', 'fdel', 'doc'), pos))
-        parts.update(kw)
-        ok = set(parts) >= {'fget', 'fset', 'fdel', 'doc'} and parts['doc'] == 'descriptor.__doc__'
-        detail = str(parts)
-    ctx.ob('C13.R4', 'property:rebuilt-with-all-four-parts', dd.where(pr),
-           'getter, setter, deleter and docstring are carried over', ok, detail)
-    src = {}
-    for a in walk_shallow(pr):
-        if isinstance(a, ast.Assign) and isinstance(a.targets[0], ast.Name) and isinstance(a.value, ast.Attribute) \
-                and dotted(a.value.value) == 'descriptor':
-            src[a.targets[0].id] = a.value.attr
-    ctx.ob('C13.R4', 'property:parts-from-same-slots', dd.where(pr),
-           'each part is read from the matching attribute of the original property',
-           {v for v in src.values()} >= {'fget', 'fset', 'fdel'} and all(
-               k.endswith(v[1:]) or v[1:] in k for k, v in src.items()), str(src))
+    _descriptor_route(ctx)
 
     # ---- R5 ----------------------------------------------------------------------
     ctx.rule('C13.R5', 'beartype_func passes func_wrapped= to make_func, which reaches functools.update_wrapper; the '
@@ -232,3 +175,415 @@ def run(ctx):
              'callables decorated one by one)')
     from .c05 import _route_selection
     _route_selection(ctx, 'C13.R7')
+
+    # ---- R8 ----------------------------------------------------------------------
+    _class_marker_roundtrip(ctx, 'C13.R8')
+
+
+# ---------------------------------------------------------------------------------------------
+# interpreted rules (abstract classes / descriptors; the analyser's own interpreter, sa/fold.py)
+# ---------------------------------------------------------------------------------------------
+class _AMember:
+    """Abstract value of a class-dictionary entry."""
+
+    def __init__(self, kind, qualname=None, beartypeable=True):
+        self.kind, self.beartypeable = kind, beartypeable
+        if qualname is not None:
+            self.__qualname__ = qualname
+            self.__name__ = qualname.rsplit('.', 1)[-1]
+
+    def __repr__(self):
+        return f'<{self.kind} {getattr(self, "__qualname__", "")}>'
+
+
+def _class_route(ctx):
+    """R1/R2 by interpretation: beartype_type over abstract classes."""
+    from sa.fold import AObj, FuncVal, Inst, Sym, _Abort, _Raise, _call_function
+    from sa.gen import AConf
+    from . import _gen
+    repo = ctx.repo
+    F = _gen.engines(ctx)[0].f
+    tm = repo.mod(TYPE)
+    fn = F.const(TYPE, 'beartype_type')
+    ctx.require(isinstance(fn, FuncVal), 'anchor vanished: beartype_type')
+
+    class _M(_AMember, AObj):
+        pass
+
+    class _Cls(AObj):
+        def __init__(self, members):
+            self._members = members
+            self.__qualname__ = self.__name__ = 'Outer'
+
+        __dict__ = property(lambda self: self._members)      # what the interpreted code sees as cls.__dict__
+
+        def __repr__(self):
+            return '<class Outer>'
+    saved_stubs, saved_inst = dict(F.stubs), F.isinstance_hook
+    log = {'decorated': [], 'set': [], 'marker_read': [], 'marker_written': [], 'marked': False}
+
+    def inst(obj, c):
+        is_type = isinstance(c, Sym) and c.kind == 'builtin' and c.name == 'type'
+        if isinstance(obj, _Cls):
+            return True if is_type else None
+        if isinstance(obj, _AMember):
+            return obj.kind == 'class' if is_type else obj.beartypeable
+        return saved_inst(obj, c) if saved_inst else None
+    F.isinstance_hook = inst
+    saved_b = F.builtin_hook
+    inherited = _M('function', 'Base.inherited')
+
+    def bh(name, args, kwargs):
+        # a class route that enumerated dir(cls) / getattr(cls, …) would also see the inherited member
+        if args and isinstance(args[0], _Cls):
+            c = args[0]
+            if name == 'vars' and len(args) == 1:
+                return c._members
+            if name == 'dir' and len(args) == 1:
+                return sorted(list(c._members) + ['inherited'])
+            if name == 'getattr' and len(args) >= 2 and isinstance(args[1], str):
+                if args[1] in c._members:
+                    return c._members[args[1]]
+                if args[1] == 'inherited':
+                    return inherited
+                if len(args) == 3:
+                    return args[2]
+        return saved_b(name, args, kwargs) if saved_b else NotImplemented
+    F.builtin_hook = bh
+
+    def decorate(env, a, k):
+        obj = k.get('obj', a[0] if a else None)
+        log['decorated'].append((obj, k.get('conf', a[1] if len(a) > 1 else None), k.get('cls_stack')))
+        if getattr(obj, 'kind', '') == 'unchanged-function':
+            return obj
+        return Inst('Checked', (repr(obj),))
+    F.stubs['beartype._decor.decorcore.beartype_object'] = decorate
+    F.stubs['beartype._util.cls.utilclsset.set_type_attr'] = lambda e, a, k: log['set'].append(tuple(a)) or None
+    F.stubs['beartype._util.module.utilmodget.get_object_module_name_or_none'] = lambda e, a, k: None
+    F.stubs['beartype._util.cls.pep.clspep557.is_type_pep557_dataclass'] = lambda e, a, k: False
+    sent = F.const('beartype._util.cache.utilcacheobjattr', 'SENTINEL')
+
+    def get_marker(e, a, k):
+        log['marker_read'].append(a[1] if len(a) > 1 else k.get('attr_name'))
+        return True if log['marked'] else sent
+    F.stubs['beartype._util.cache.utilcacheobjattr.get_type_attr_cached_or_sentinel'] = get_marker
+    F.stubs['beartype._util.cache.utilcacheobjattr.set_type_attr_cached'] = \
+        lambda e, a, k: log['marker_written'].append(tuple(a[1:]) if len(a) > 1 else (k.get('attr_name'), k.get('attr_value'))) or None
+
+    def members():
+        return {
+            'method': _M('function', 'Outer.method'),
+            'cm': _M('classmethod'),
+            'sm': _M('staticmethod'),
+            'prop': _M('property'),
+            'same': _M('unchanged-function', 'Outer.same'),
+            'Inner': _M('class', 'Outer.Inner'),
+            'alias': _M('class', 'Elsewhere'),              # class declared elsewhere, merely assigned in the body
+            'alias2': _M('class', 'Other.Outer'),           # … whose qualified name merely contains the parent's
+            'x': _M('data', beartypeable=False),
+        }
+    conf = AConf(is_pep557_fields=False)
+    try:
+        for stack_name, stack in (('absent', 'absent'), ('None', None), ('outer-classes', ('Enclosing',))):
+            for marked in (False, True):
+                for k_ in log:
+                    if isinstance(log[k_], list):
+                        del log[k_][:]
+                log['marked'] = marked
+                ms = members()
+                cls = _Cls(ms)
+                kw = {'conf': conf}
+                if stack != 'absent':
+                    kw['cls_stack'] = stack
+                try:
+                    out = _call_function(F, fn, [cls], kw, 1)
+                except (_Abort, _Raise) as ex:
+                    ctx.require(False, f'cannot interpret beartype_type: {ex}')
+                tag = f'cls_stack={stack_name}:already-decorated={marked}'
+                ctx.ob('C13.R1', f'beartype_type:returns-the-class:{tag}', tm.where(fn.node),
+                       'the class object that was passed in is returned', out is cls, f'evaluates to {out!r}')
+                dec = {id(o): (o, c, s) for o, c, s in log['decorated']}
+                if marked:
+                    ctx.ob('C13.R5', f'beartype_type:idempotent:{tag}', tm.where(fn.node),
+                           'an already decorated class is returned without decorating or replacing any member',
+                           not log['decorated'] and not log['set'] and not log['marker_written'],
+                           f'decorated {[o for o, _, _ in log["decorated"]]}, replaced {[a[1:2] for a in log["set"]]}')
+                    continue
+                want = [ms[n] for n in ('method', 'cm', 'sm', 'prop', 'same', 'Inner')]
+                got = [o for o, _, _ in log['decorated']]
+                ctx.ob('C13.R2', f'beartype_type:own-beartypeable-members-decorated:{tag}', tm.where(fn.node),
+                       'exactly the beartypeable entries of cls.__dict__ are decorated — functions, descriptors and '
+                       'classes lexically nested in this class; not data, not classes declared elsewhere',
+                       len(got) == len(want) and all(any(g is w for g in got) for w in want),
+                       f'decorated: {got}; expected: {want}')
+                want_stack = ((stack if stack not in ('absent', None) else ()) + (cls,))
+                bad = [(o, s) for o, c, s in log['decorated'] if not (isinstance(s, tuple) and len(s) == len(want_stack)
+                                                                     and all(x is y for x, y in zip(s, want_stack)))]
+                ctx.ob('C13.R2', f'beartype_type:members-get-the-class-stack:{tag}', tm.where(fn.node),
+                       'every member is decorated with the class stack extended by this class', not bad,
+                       f'{bad[:2]} (expected stack {want_stack})')
+                badc = [o for o, c, s in log['decorated'] if c is not conf]
+                ctx.ob('C13.R2', f'beartype_type:members-get-the-configuration:{tag}', tm.where(fn.node),
+                       'every member is decorated under the configuration the class is decorated under', not badc, f'{badc[:2]}')
+                sets = {a[1]: a for a in log['set']}
+                ok = set(sets) == {'method', 'cm', 'sm', 'prop', 'Inner'} and all(a[0] is cls for a in log['set']) and all(
+                    isinstance(a[2], Inst) and a[2].cls == 'Checked' and a[2].args == (repr(ms[a[1]]),) for a in log['set'])
+                ctx.ob('C13.R2', f'beartype_type:replaces-on-same-class:{tag}', tm.where(fn.node),
+                       'each member whose decoration differs from it is replaced, under its own name, on cls itself '
+                       '(by the result of decorating that very member)', ok, f'{log["set"]}')
+                w = log['marker_written']
+                ctx.ob('C13.R5', f'beartype_type:marks-the-class:{tag}', tm.where(fn.node),
+                       'the class is marked as decorated under the key the idempotence guard reads',
+                       len(w) == 1 and len(log['marker_read']) >= 1 and w[0][0] == log['marker_read'][0] and w[0][1] is True,
+                       f'guard reads {log["marker_read"]}, written {w}')
+    finally:
+        F.isinstance_hook, F.builtin_hook = saved_inst, saved_b
+        F.stubs.clear()
+        F.stubs.update(saved_stubs)
+
+
+def _descriptor_route(ctx):
+    """R4 by interpretation: the builtin-descriptor decorators over abstract descriptors."""
+    from sa.fold import AObj, FuncVal, Inst, Sym, Unknown, _Abort, _Raise, _call_function
+    from sa.gen import AConf
+    from . import _gen
+    repo = ctx.repo
+    F = _gen.engines(ctx)[0].f
+    dd = repo.mod(DESC)
+    mp = repo.mod('beartype._decor._nontype._decornontypemap')
+    # the dispatch table, by value: whatever it is called, the dictionary whose keys include the three builtin names
+    table = {}
+    for n in ast.walk(mp.tree):
+        if isinstance(n, ast.Dict):
+            for k, v in zip(n.keys, n.values):
+                if const_str(k) in ('classmethod', 'staticmethod', 'property'):
+                    table[const_str(k)] = v
+    ctx.require(set(table) == {'classmethod', 'staticmethod', 'property'}, 'descriptor dispatch table not found')
+    fns = {}
+    for k, v in table.items():
+        f = F.eval_in(mp, v)
+        ctx.ob('C13.R4', f'descriptor-dispatch:{k}', mp.where(v), f'{k} objects are dispatched to a descriptor decorator '
+               'of the repository', isinstance(f, FuncVal), f'mapped to {norm(v)}')
+        if not isinstance(f, FuncVal):
+            return
+        fns[k] = f
+    saved_stubs, saved_inst, saved_b = dict(F.stubs), F.isinstance_hook, F.builtin_hook
+
+    class _Func(AObj):
+        def __init__(self, name, annotated=True):
+            self.name, self.annotated = name, annotated
+
+        def __repr__(self):
+            return f'<{"annotated" if self.annotated else "unannotated"} function {self.name}>'
+
+    class _Desc(AObj):
+        kind = '?'
+
+        def __init__(self, func):
+            self.__func__ = self.__wrapped__ = func
+
+        def __repr__(self):
+            return f'<{self.kind} of {self.__func__!r}>'
+
+    class _ClassMethod(_Desc):
+        kind = 'classmethod'
+
+    class _StaticMethod(_Desc):
+        kind = 'staticmethod'
+
+    class _Property(AObj):
+        kind = 'property'
+
+        def __init__(self, fget=None, fset=None, fdel=None, doc=None):
+            self.fget, self.fset, self.fdel, self.__doc__ = fget, fset, fdel, doc
+
+        def __repr__(self):
+            return f'<property fget={self.fget!r} fset={self.fset!r} fdel={self.fdel!r} doc={self.__doc__!r}>'
+
+    def inst(obj, c):
+        if isinstance(obj, (_Desc, _Property)):
+            return True            # the assertions about the descriptor's own kind
+        return saved_inst(obj, c) if saved_inst else None
+    F.isinstance_hook = inst
+
+    def bh(name, args, kwargs):
+        if name == 'property':
+            return _Property(*args, **kwargs)
+        if name in ('classmethod', 'staticmethod') and len(args) == 1:
+            return (_ClassMethod if name == 'classmethod' else _StaticMethod)(args[0])
+        if name == 'type' and len(args) == 1 and isinstance(args[0], AObj):
+            return F_type(args[0])
+        return saved_b(name, args, kwargs) if saved_b else NotImplemented
+
+    def F_type(o):
+        from sa.fold import _PyCallable
+        return _PyCallable(type(o))
+    F.builtin_hook = bh
+    seen = []
+
+    def D(f):
+        """What decorating the function f yields: a checking wrapper, or f itself when there is nothing to check."""
+        return f if f is None or not f.annotated else Inst('Checked', (repr(f),))
+
+    def checked(env, a, k):
+        f = k.get('func', k.get('obj', a[0] if a else None))
+        seen.append((f, {x: y for x, y in k.items() if x not in ('func', 'obj')}))
+        return D(f) if isinstance(f, _Func) else Unknown('decoration of something else')
+    for q in ('beartype._decor._nontype.decornontype.beartype_func', 'beartype._decor.decorcore.beartype_object'):
+        F.stubs[q] = checked
+    F.stubs['beartype._util.bear.utilbearfunc.is_func_beartyped'] = lambda e, a, k: isinstance(a[0], Inst) and a[0].cls == 'Checked'
+    conf, stack = AConf(), ('Outer',)
+    kw = {'conf': conf, 'cls_stack': stack}
+
+    def same(v, w):
+        return v is w or (isinstance(v, Inst) and isinstance(w, Inst) and v.cls == w.cls and v.args == w.args)
+    try:
+        for kind, cls in (('classmethod', _ClassMethod), ('staticmethod', _StaticMethod)):
+            for ann in (True, False):
+                f = _Func('f', ann)
+                d = cls(f)
+                del seen[:]
+                try:
+                    out = _call_function(F, fns[kind], [d], dict(kw), 1)
+                except (_Abort, _Raise) as ex:
+                    ctx.require(False, f'cannot interpret {fns[kind].qual}: {ex}')
+                tag = 'annotated' if ann else 'unannotated'
+                ctx.ob('C13.R4', f'descriptor:{kind}:kind-kept:{tag}', dd.where(fns[kind].node),
+                       f'decorating a {kind} object yields a {kind} object around the decorated wrappee',
+                       type(out) is cls and same(out.__func__, D(f)), f'{d!r} evaluates to {out!r}')
+                ctx.ob('C13.R4', f'descriptor:{kind}:options-forwarded:{tag}', dd.where(fns[kind].node),
+                       'the wrappee is decorated with the configuration and class stack the descriptor was decorated with',
+                       len(seen) == 1 and seen[0][0] is f and seen[0][1].get('conf') is conf and seen[0][1].get('cls_stack') is stack,
+                       f'{seen}')
+        import itertools
+        for g_ann, set_kind, del_kind in \
+                itertools.product((True, False), ('absent', 'annotated', 'unannotated'), ('absent', 'annotated', 'unannotated')):
+            g = _Func('getter', g_ann)
+            s_ = None if set_kind == 'absent' else _Func('setter', set_kind == 'annotated')
+            d_ = None if del_kind == 'absent' else _Func('deleter', del_kind == 'annotated')
+            p = _Property(g, s_, d_, 'the docstring')
+            del seen[:]
+            try:
+                out = _call_function(F, fns['property'], [p], dict(kw), 1)
+            except (_Abort, _Raise) as ex:
+                ctx.require(False, f'cannot interpret {fns["property"].qual}: {ex}')
+            tag = f'getter={"annotated" if g_ann else "unannotated"}:setter={set_kind}:deleter={del_kind}'
+            ok = type(out) is _Property and same(out.fget, D(g)) and same(out.fset, D(s_)) and same(out.fdel, D(d_)) \
+                and out.__doc__ == 'the docstring'
+            ctx.ob('C13.R4', f'descriptor:property:parts-kept:{tag}', dd.where(fns['property'].node),
+                   'decorating a property yields a property whose getter, setter and deleter are the decorated '
+                   'versions of the original\'s own getter, setter and deleter (absent parts stay absent) and whose '
+                   'docstring is the original\'s', ok, f'{p!r} evaluates to {out!r}')
+            bad = [x for x in seen if x[1].get('conf') is not conf or x[1].get('cls_stack') is not stack]
+            ctx.ob('C13.R4', f'descriptor:property:options-forwarded:{tag}', dd.where(fns['property'].node),
+                   'every part is decorated with the configuration and class stack the property was decorated with',
+                   not bad, f'{seen}')
+    finally:
+        F.isinstance_hook, F.builtin_hook = saved_inst, saved_b
+        F.stubs.clear()
+        F.stubs.update(saved_stubs)
+
+
+def _class_marker_roundtrip(ctx, RULE):
+    """The store behind the "class already decorated" marker, interpreted: what set_type_attr_cached stores is what
+    get_type_attr_cached_or_sentinel finds — per class, not per class hierarchy."""
+    from sa.fold import AObj, FuncVal, Sym, _Abort, _Raise, _PyCallable, _WithValue, _call_function
+    from . import _gen
+    repo = ctx.repo
+    CACHE = 'beartype._util.cache.utilcacheobjattr'
+    F = _gen.engines(ctx)[0].f
+    cm = repo.mod(CACHE)
+    getter = F.const(CACHE, 'get_type_attr_cached_or_sentinel')
+    setter = F.const(CACHE, 'set_type_attr_cached')
+    sent = F.const(CACHE, 'SENTINEL')
+    ctx.require(isinstance(getter, FuncVal) and isinstance(setter, FuncVal), 'anchor vanished: type attribute cache accessors')
+    ctx.rule(RULE, 'the store behind the "class already decorated" marker, decided by interpreting set_type_attr_cached '
+             'followed by get_type_attr_cached_or_sentinel over abstract classes (__sizeof__ pure-Python or C-based; a '
+             'subclass sharing its superclass\'s __sizeof__): a value stored for a class under a name is the value read '
+             'back for that class and name; nothing is read back for another name, for a class nothing was stored for, '
+             'or for a subclass of the class it was stored for')
+
+    class _Fn(AObj):
+        """A function object: attributes can be monkey-patched into it."""
+        _track_attribute_stores = True
+
+        def __init__(self, pure):
+            self.pure = pure
+
+        def __repr__(self):
+            return f'<__sizeof__ {"pure-Python" if self.pure else "C-based"} {sorted(k for k in vars(self) if k != "pure")}>'
+
+    class _Cls(AObj):
+        _track_attribute_stores = True
+
+        def __init__(self, name, sizeof):
+            self.name, self.__sizeof__ = name, sizeof
+
+        def __repr__(self):
+            return f'<class {self.name}>'
+    saved_stubs, saved_inst, saved_b = dict(F.stubs), F.isinstance_hook, F.builtin_hook
+
+    def inst(obj, c):
+        if isinstance(obj, _Fn):
+            return obj.pure
+        if isinstance(obj, _Cls):
+            return True
+        return saved_inst(obj, c) if saved_inst else None
+    F.isinstance_hook = inst
+
+    def bh(name, args, kwargs):
+        if name in ('getattr', 'hasattr', 'setattr') and args and isinstance(args[0], (_Fn, _Cls)) and isinstance(args[1], str):
+            if name == 'setattr':
+                setattr(args[0], args[1], args[2])
+                return None
+            if name == 'hasattr':
+                return hasattr(args[0], args[1])
+            return getattr(args[0], args[1], *args[2:3])
+        return saved_b(name, args, kwargs) if saved_b else NotImplemented
+    F.builtin_hook = bh
+    # @wraps(c_function) def wrapper …: the pure-Python replacement of a C-based __sizeof__
+    F.ext_stubs_saved = dict(F.ext_stubs)
+    F.apply_nested_decorators = True
+    F.ext_stubs['functools.wraps'] = lambda env, a, k: _PyCallable(lambda f: _Fn(True))
+    F.stubs['beartype._util.cls.utilclsset.set_type_attr'] = lambda e, a, k: setattr(a[0], a[1], a[2])
+    old_lock = F.patch_global(CACHE, 'object_attr_cache_lock', _WithValue(None))
+
+    def call(fn, *a):
+        try:
+            return _call_function(F, fn, list(a), {}, 1)
+        except (_Abort, _Raise) as ex:
+            ctx.require(False, f'cannot interpret {fn.qual}: {ex}')
+    try:
+        for pure in (True, False):
+            tag = 'pure-Python-__sizeof__' if pure else 'C-based-__sizeof__'
+            sz = _Fn(pure)
+            sup = _Cls('Super', sz)
+            other = _Cls('Unrelated', _Fn(pure))
+            before = call(getter, sup, 'k')
+            ctx.ob(RULE, f'type-attr-cache:nothing-before-store:{tag}', cm.where(getter.node),
+                   'before anything is stored the sentinel is read', before is sent or before == sent, f'evaluates to {before!r}')
+            call(setter, sup, 'k', True)
+            sub = _Cls('Sub', sup.__sizeof__)        # a subclass inherits the (possibly replaced) __sizeof__
+            got = call(getter, sup, 'k')
+            ctx.ob(RULE, f'type-attr-cache:stored-is-read-back:{tag}', cm.where(setter.node),
+                   'the value stored for (class, name) is read back for (class, name)', got is True,
+                   f'after set_type_attr_cached(C, "k", True), get_type_attr_cached_or_sentinel(C, "k") evaluates to '
+                   f'{got!r}; C.__sizeof__ is {sup.__sizeof__!r}')
+            for what, c_, nm in (('other-name', sup, 'j'), ('subclass', sub, 'k'), ('unrelated-class', other, 'k')):
+                r = call(getter, c_, nm)
+                ctx.ob(RULE, f'type-attr-cache:not-read-for-{what}:{tag}', cm.where(getter.node),
+                       f'nothing is read back for {what.replace("-", " ")}', r is sent or r == sent, f'evaluates to {r!r}')
+            call(setter, sub, 'k', 'sub-value')
+            call(setter, sup, 'j', 'second')
+            r = (call(getter, sup, 'k'), call(getter, sub, 'k'), call(getter, sup, 'j'))
+            ctx.ob(RULE, f'type-attr-cache:later-stores-keep-earlier:{tag}', cm.where(setter.node),
+                   'storing for a subclass or under another name keeps what was stored before',
+                   r == (True, 'sub-value', 'second'), f'evaluates to {r!r}')
+    finally:
+        F.isinstance_hook, F.builtin_hook = saved_inst, saved_b
+        F.stubs.clear()
+        F.stubs.update(saved_stubs)
+        F.ext_stubs.clear()
+        F.ext_stubs.update(F.ext_stubs_saved)
+        F.apply_nested_decorators = False
+        F.patch_global(CACHE, 'object_attr_cache_lock', old_lock)
